@@ -83,8 +83,12 @@ def drive_transformer(pkg, inst, text):
     class_level = {t.id for st in (cdef.body if cdef is not None else ()) if isinstance(st, (ast.Assign, ast.AnnAssign)) and isinstance(getattr(st, "value", None), (ast.Call, ast.Name, ast.Lambda))
                    for t in (st.targets if isinstance(st, ast.Assign) else [st.target]) if isinstance(t, ast.Name)}
 
+    from .pkgenv import installed_by_decorators
+
+    installed = installed_by_decorators(pkg, rel, cls)
+
     def has(name):
-        return (rel, f"{cls}.{name}") in pkg.repo.funcs or name in class_level
+        return (rel, f"{cls}.{name}") in pkg.repo.funcs or name in class_level or (name in installed and not name.startswith("_"))
 
     from lark import Token
 
